@@ -763,6 +763,23 @@ def _is_scalar_const_value(val: Optional[ir.Value]) -> bool:
     return True
 
 
+def _side_operands_are_layout_free(node: ir.Node, chain_value: Optional[ir.Value]) -> bool:
+    """True when every operand other than ``chain_value`` is a scalar constant.
+
+    Chain walkers that follow a single data input may only step across a
+    multi-input elementwise op when its remaining operands do not depend on the
+    layout/shape of the data input. ``CastLike`` only reads its exemplar's dtype.
+    """
+    if node.op_type == "CastLike":
+        return True
+    for iv in _node_inputs(node):
+        if iv is None or iv is chain_value:
+            continue
+        if not _is_scalar_const_value(iv):
+            return False
+    return True
+
+
 def _is_elementwise_node(node: ir.Node) -> bool:
     return (
         node.op_type in ELEMENTWISE_UNARY_OPS or node.op_type in ELEMENTWISE_BINARY_OPS
@@ -1658,15 +1675,19 @@ def remove_redundant_transpose_pairs_ir(graph: ir.Graph) -> None:
                 if T1_out is None or T1_out.is_graph_output():
                     i += 1
                     continue
+                chain_val: Optional[ir.Value] = T1_out
                 while steps < 8:
                     steps += 1
                     m = cur
                     if m.op_type in ALLOWED_ELEMWISE:
+                        if not _side_operands_are_layout_free(m, chain_val):
+                            break
                         cur_val = _node_output(m)
                         if cur_val is None or cur_val.is_graph_output():
                             break
                         chain_nodes.append(m)
                         allowed_nodes.append(m)
+                        chain_val = cur_val
                         next_nodes = _consumer_nodes(nodes, cur_val)
                         if len(next_nodes) != 1:
                             break
@@ -1802,6 +1823,10 @@ def remove_redundant_reshape_pairs_ir(graph: ir.Graph) -> None:
                     prod_node.op_type in ALLOWED_ELEMWISE
                     and (getattr(prod_node, "domain", "") or "") == ""
                 ):
+                    if not _side_operands_are_layout_free(
+                        prod_node, _first_input(prod_node)
+                    ):
+                        break
                     allowed_nodes.append(prod_node)
                     v = _first_input(prod_node)
                     continue
